@@ -204,10 +204,12 @@ def gen_tree(rnd: random.Random, max_nodes: int = 25, names=NAMES, big: int = 40
         if depth >= 4 and rnd.random() < 0.8:
             continue
         name = rnd.choice(names)
+        k = rnd.random()
+        if k >= 0.62 and rnd.random() < 0.3:
+            name = rnd.choice(["index.gmi", "index.gemini"])       # index files that are links
         p = parent + "/" + name
         if any(e[1] == p for e in ents):
             continue
-        k = rnd.random()
         if k < 0.27 and depth < 4:
             ents.append(["d", p])
             dirs.append(p)
@@ -270,24 +272,30 @@ ESCAPES = ["/../out/secret", "/../../out/secret", "/../root-evil/e", "/%2e%2e/ou
            "/../root", "/../root/", "/?", "/#", "/a?b/../../out/secret", "/a#b"]
 
 
+def _encodable(s: str) -> bool:
+    try:
+        s.encode("utf-8")
+        return True
+    except UnicodeEncodeError:
+        return False
+
+
 def spellings(rnd: random.Random, ents, n: int) -> list[str]:
     """request paths (the text after `gemini://h`) aimed at the entries of a tree"""
-    inside = [e[1][len("root"):] or "/" for e in ents if e[1] == "root" or e[1].startswith("root/")]
-    names = [e[1].rsplit("/", 1)[-1] for e in ents]
+    inside = [e[1][len("root"):] or "/" for e in ents if (e[1] == "root" or e[1].startswith("root/")) and _encodable(e[1])]
+    names = [n for n in (e[1].rsplit("/", 1)[-1] for e in ents) if _encodable(n) and not n.startswith(MARK)]
     out: list[str] = []
     # the own path of every plain file, literally and percent-encoded (completeness), first
     for e in ents:
         if e[0] == "f" and e[1].startswith("root/") and rnd.random() < 0.5:
             lit, enc = own_spellings(e[1][len("root/"):])
-            out.append(lit)
-            if enc is not None:
+            if enc is not None:          # (a name with undecodable bytes has no spelling in a UTF-8 request line)
+                out.append(lit)
                 out.append(enc)
+    rnd.shuffle(out)
+    out = out[:max(2, n // 2)]
     while len(out) < n:
         base = rnd.choice(inside + ["/", "/zz"])
-        try:
-            base.encode("utf-8")
-        except UnicodeEncodeError:
-            base = "/"
         k = rnd.random()
         if k < 0.10:
             s = base
@@ -379,3 +387,87 @@ def listing_names(body: str, req_path: str) -> list[str] | None:
         else:
             return None
     return sorted(names)
+
+
+# ----------------------------------------------------------------------------------------------
+# canonical observations of a static response (shared by C02 and C05)
+# ----------------------------------------------------------------------------------------------
+def why40(meta: str) -> str:
+    if meta.startswith("File encoding error"):
+        return "notutf8"
+    if meta.startswith("Permission denied"):
+        return "denied"
+    if meta.startswith("Error generating directory listing:"):
+        return "listing"
+    if meta.startswith("Server error:"):
+        return "ioerror"
+    return "other:" + meta[:30]
+
+
+def canon_response(status, meta, body, req_path, built: "Built"):
+    """(compared part, oracle part) of one response"""
+    text = (meta or "") + "\n" + (body or "")
+    # (no generated request spelling contains the marker name, so an echo of the request cannot produce it)
+    x = {"st": status, "sent": sentinels_in(text), "metasent": sentinels_in(meta or ""), "mark": MARK in text,
+         "nobody": body is None or body == ""}
+    if status == 20:
+        ids = sentinels_in((body or "")[:40])
+        if body and body.startswith("@@S") and len(ids) == 1:
+            mime = "gem" if meta == "text/gemini" else "plain" if meta == "text/plain" else "mime:" + str(meta)
+            return ["20", "file", ids[0], mime, built.real_rel(ids[0])], x
+        names = listing_names(body or "", req_path)
+        if names is not None:
+            x["names"] = names
+            return ["20", "listing", names], x
+        return ["20", "unknown", (body or "")[:40]], x
+    if status == 40:
+        return ["40", why40(meta or "")], x
+    return [str(status)], x
+
+
+def parse_static_out(o: str):
+    """one result of the driver's `static` / `capsule` op -> the compared part of an observation"""
+    f = o.split(" ")
+    if f[0] == "20" and f[1].startswith("file"):
+        return ["20", "file", int(f[1][4:]), f[2], dec_path(f[3])]
+    if f[0] == "20":
+        return ["20", "listing", sorted(dec_name(n) for n in f[3:] if n)]
+    if f[0] == "40":
+        return ["40", f[1]]
+    return [f[0]]
+
+
+def wire_of(r):
+    """what the protocol layer must put on the wire for a handler-level result `r`"""
+    if r == ["reject"]:
+        return ["59"]
+    if r == ["raised"]:
+        return ["40", "ioerror"]
+    if r[:2] == ["20", "listing"] and any(0xD800 <= ord(c) <= 0xDFFF for n in r[2] for c in n):
+        return ["40", "ioerror"]          # the listing cannot be encoded: "Server error: response body is not valid text"
+    return r
+
+
+def parse_wire(out: bytes):
+    """(status, meta, body | None) of the bytes a server wrote"""
+    head, _, body = out.partition(b"\r\n")
+    try:
+        st, meta = int(head[:2]), head[3:].decode("utf-8", "replace")
+    except ValueError:
+        st, meta = -1, head.decode("utf-8", "replace")
+    return st, meta, (body.decode("utf-8", "replace") if body else None)
+
+
+def ref_canonical(path: str) -> str:
+    """reference canonical form of a URL path (RFC 3986 §5.2.4 after one percent-decoding)"""
+    segs: list[str] = []
+    parts = urllib.parse.unquote(path).split("/")
+    for p in parts:
+        if p in ("", "."):
+            continue
+        if p == "..":
+            if segs:
+                segs.pop()
+            continue
+        segs.append(p)
+    return "/" + "/".join(segs) + ("/" if segs and parts[-1] in ("", ".", "..") else "")
